@@ -141,6 +141,11 @@ def isDefError : Err → Bool
 
 def finish (w : World) (s : SS) : World := { w with ret := s, pc := .idle }
 
+/-- `dispatchTask` gives up: besides returning `DispatchErr` it remembers to restart the timer in the next `Step`
+(the announced timer event is consumed, and the failed attempt may have changed the repository without the timer
+hook being told — D21) -/
+def finishDE (w : World) (s : SS) : World := { w.finish s with getNextErr := true }
+
 /-- after the restart prologue of `Step`: clear getNextErr, then dispatch the remembered task or select -/
 def afterPrologue (w : World) : World :=
   let w := { w with getNextErr := false }
@@ -204,25 +209,25 @@ def sched (w : World) (a : SAct) : World × Resp :=
       let e := if f == .after then some Err.other else (match out with | .err e => some e | _ => none)
       (w.finish (.taskDone id o e), .err e)
   | .d_wait t retry, .waitWorker acquired =>
-    if !acquired then (w.finish (.dispatchErr t .ctx), .err (some .ctx))
+    if !acquired then (w.finishDE (.dispatchErr t .ctx), .err (some .ctx))
     else if retry then ({ w with pc := .d_get t }, .unit)    -- isRetry: MarkAsDispatched is skipped
     else ({ w with pc := .d_mark t retry }, .unit)
   | .d_mark t retry, .markDispatched f hf =>
-    if f == .before then (w.finish (.dispatchErr t .other), .err (some .other))
-    else if w.ctxDone then (w.finish (.dispatchErr t .ctx), .err (some .ctx))
+    if f == .before then (w.finishDE (.dispatchErr t .other), .err (some .other))
+    else if w.ctxDone then (w.finishDE (.dispatchErr t .ctx), .err (some .ctx))
     else
       let (o', out) := w.obs.step (.dispatch t.id) hf
       let w := { w with obs := o' }
       let e : Option Err := if f == .after then some .other else (match out with | .err e => some e | _ => none)
       match e with
-      | some e => (w.finish (.dispatchErr t e), .err (some e))
+      | some e => (w.finishDE (.dispatchErr t e), .err (some e))
       | none => ({ w with pc := .d_get t }, .err none)
   | .d_get t, .getById f =>
-    if f != .none then (w.finish (.dispatchErr t .other), .err (some .other))
-    else if w.ctxDone then (w.finish (.dispatchErr t .ctx), .err (some .ctx))
+    if f != .none then (w.finishDE (.dispatchErr t .other), .err (some .other))
+    else if w.ctxDone then (w.finishDE (.dispatchErr t .ctx), .err (some .ctx))
     else
       match w.obs.repo.lookup t.id with
-      | none => (w.finish (.dispatchErr t .idNotFound), .err (some .idNotFound))
+      | none => (w.finishDE (.dispatchErr t .idNotFound), .err (some .idNotFound))
       | some cur =>
         -- the dispatcher starts the work function with `cur`; Dispatch returns the channel; Reserve
         let w := { w with running := w.running ++ [(t.id, cur)],
